@@ -25,10 +25,10 @@ RULE = ("(1) inventory: in a fresh interpreter the re module is wrapped BEFORE p
         "time: R1 every input of length <= 48 finishes within 0.25 s; R2 between consecutive lengths La<Lb time may grow at "
         "most like a degree-8 polynomial (with a 2 ms noise floor); the slowest families per pattern / entry point are "
         "followed up to length 384. Non-trivial = the pattern / entry point rejects the input (the only situation where "
-        "backtracking cost shows); distinct = pattern or entry point + family. (4) every text position of 8 base documents is probed with a canary: text that reaches re as part of a PATTERN (unescaped) is confirmed end to end with a nested-quantifier pattern there and near-miss subjects elsewhere. (5) number-shaped text (exponent notation, long digit runs, signs, underscores, non-ASCII digits; 24 families growing one character at a time up to 48 characters) in every converted field - timestamps, disc numbers, sizes, respins, flags, as text and as bare JSON number tokens - under the same R1/R2 oracle: the cost of a conversion is not visible at the re boundary. (6) documents whose STRUCTURE is pumped (nesting depth up to 32, siblings, records) while every field stays short: a document of at most 20 000 characters loads and dumps within 1 CPU second each (R3), R2 between consecutive sizes.")
+        "backtracking cost shows); distinct = pattern or entry point + family. (4) every text position of 8 base documents is probed with a canary: text that reaches re as part of a PATTERN (unescaped) is confirmed end to end with a nested-quantifier pattern there and near-miss subjects elsewhere. (5) number-shaped text (exponent notation, long digit runs, signs, underscores, non-ASCII digits; 24 families growing one character at a time up to 48 characters) in every converted field - timestamps, disc numbers, sizes, respins, flags, as text and as bare JSON number tokens - under the same R1/R2 oracle: the cost of a conversion is not visible at the re boundary. (6) documents whose STRUCTURE is pumped (nesting depth up to 32, siblings, records) while every field stays short: a document of at most 20 000 characters loads and dumps within 1 CPU second each (R3), R2 between consecutive sizes. (7) text used as a TEMPLATE: every entry point is given values that carry a replacement field with a width of 5 to 8 digits in each formatting language of the standard library (str.format, %, by position and by every name visible in the productmd frames of the refusal); the refusal must stay within R1 and its message within a linear bound of the input - a width of d digits that costs 10^d is exponential in the length of the input.")
 ASSUMPTIONS = ["CPU time (time.process_time) measured in the checking process with a virtual-time interval timer; thresholds leave > 100x margin over the slowest legitimate case",
                "an empirical cost model, not an ambiguity proof of the automata: a blow-up outside the explored families/lengths stays invisible"]
-FLOORS = {"distinct_nontrivial": 1500, "patterns": 300, "entry-points": 600, "number-shaped-fields": 400}
+FLOORS = {"distinct_nontrivial": 1500, "patterns": 300, "entry-points": 600, "number-shaped-fields": 400, "input-as-template": 100}
 
 R1_LIMIT = 0.25
 NOISE_FLOOR = 0.002
@@ -627,6 +627,79 @@ def taint_case(case):
     return {"nontrivial": True, "labels": ["tainted-position"], "tried": tried}
 
 
+# ---- input text used as a template -------------------------------------------------------------------------------------------
+# A refused value ends up in a message.  If it gets there THROUGH a formatting step (str.format, %, string.Template) instead of
+# as an argument of one, a width of d digits makes the refusal cost 10^d steps: exponential in the length of the input.
+TEMPLATE_BASES = ["", "x.", "1.2-", "a:b:c "]
+TEMPLATE_WIDTHS = [10 ** 4, 10 ** 5, 10 ** 6, 10 ** 7]
+COMMON_NAMES = ["", "0", "1", "2", "value", "field", "name", "msg", "message", "pattern", "patterns", "expected", "detail", "key", "self", "cls", "args", "kwargs"]
+
+
+def _visible_names(exc):
+    """names a formatting step next to the refusal could refer to: locals (and keys of mapping locals) of the productmd frames"""
+    names = set()
+    tb = exc.__traceback__
+    while tb is not None:
+        frame = tb.tb_frame
+        if os.sep + "productmd" + os.sep in frame.f_code.co_filename:
+            for k, v in list(frame.f_locals.items()):
+                names.add(k)
+                if isinstance(v, dict):
+                    names.update(x for x in list(v)[:30] if isinstance(x, str) and x.isidentifier())
+        tb = tb.tb_next
+    return names
+
+
+def _refusal(fn, value):
+    try:
+        fn(value)
+    except Timeout:
+        raise
+    except Exception as exc:  # noqa
+        return exc
+    return None
+
+
+def template_case(case, eps=None):
+    eps = eps or entry_points()
+    fn = dict(eps)[case["entry"]]
+    base = case["base"]
+    plain = _refusal(fn, base + "(x:>10000)")
+    names = set(COMMON_NAMES)
+    for probe in ("{x}", "%(x)s", "${x}", "{0}", "%s %s %s %s %s %s %s %s"):
+        exc = _refusal(fn, base + probe)
+        if exc is not None:
+            names |= _visible_names(exc)
+    names = sorted(n for n in names if len(n) <= 24)
+    if "names" in case:
+        names = case["names"]
+    refused = 0
+    plain_len = len(str(plain)) if plain is not None else 0
+    for name in names:
+        styles = ["{" + name + ":>@W@}", "{" + name + "!r:>@W@}"]
+        if name and not name.isdigit():
+            styles += ["%(" + name + ")@W@s", "%(" + name + ")@W@d"]
+        elif name == "":
+            styles += ["%@W@s", "%@W@d", "%@W@r", "%0@W@d"]
+        for style in (case["styles"] if "styles" in case else styles):
+            for width in TEMPLATE_WIDTHS:
+                value = base + style.replace("@W@", str(width))
+                box = {}
+
+                def call():
+                    box["exc"] = _refusal(fn, value)
+                t = timed(call, 2.0)
+                exc = box.get("exc")
+                size = len(str(exc)) if exc is not None else 0
+                refused += exc is not None
+                check(size <= plain_len + 64 * len(value) + 1000, "refused-value-used-as-template",
+                      lambda: "entry point %s: the %d-character value %r is refused with a message of %d characters (a value of the same length without a width: %d characters); every further digit multiplies the work by ten" % (
+                          case["entry"], len(value), value, size, plain_len))
+                check(t is not None and t <= R1_LIMIT, "short-input-stalls",
+                      lambda: "entry point %s: the %d-character value %r took %s CPU seconds (limit %.2f s)" % (case["entry"], len(value), value, "more than 2.0" if t is None else "%.3f" % t, R1_LIMIT))
+    return {"nontrivial": refused > 0, "labels": ["refused" if refused else "accepted", "names:%d" % min(len(names) // 10 * 10, 40)], "tried": refused}
+
+
 def chosen(alphabet, max_affix, max_pump, count, seed_parts):
     """count=None: every family (deterministically shuffled); otherwise a seeded sample drawn without materialising the space"""
     rnd = random.Random(derive_seed(*seed_parts))
@@ -738,6 +811,10 @@ def run(ctx):
                 len(sinks), len(NUMBER_FAMILIES), NUMBER_LENGTHS, "; ".join(n for n, _ in sinks)))
         ctx.sweep("number-shaped-fields", [{"entry": name, "family": list(fam)} for name, _ in sinks for fam in NUMBER_FAMILIES], lambda c: number_case(c, sinks), exhaustive=True)
 
+    if ctx.wanted("input-as-template"):
+        eps_t = entry_points()
+        ctx.sweep("input-as-template", [{"entry": name, "base": base} for name, _ in eps_t for base in TEMPLATE_BASES], lambda c: template_case(c, eps_t), exhaustive=True, stop_after=3)
+
     ctx.sweep("structured-documents", [{"kind": k} for k in sorted(STRUCTURE_SIZES)], structured_case, exhaustive=True, stop_after=3)
 
     # entry points
@@ -821,5 +898,5 @@ def entry_case(case, eps=None):
     return {"nontrivial": rejected, "labels": ["rejected" if rejected else "accepted"], "t": t}
 
 
-REPLAY = {"structured-documents": structured_case, "number-shaped-fields": number_case, "patterns": pattern_case, "entry-points": entry_case, "input-as-pattern": taint_case}
+REPLAY = {"input-as-template": template_case, "structured-documents": structured_case, "number-shaped-fields": number_case, "patterns": pattern_case, "entry-points": entry_case, "input-as-pattern": taint_case}
 QUICK_JOBS = 8
